@@ -929,6 +929,7 @@ func c08Registry(c *Ctx) {
 		}
 	}
 	// every checker validates arity: has a non-nil return guarded by a len(Param) comparison
+	arity := checkerSummaries(t)
 	for _, k := range sortedKeys(chk) {
 		f := chk[k]
 		hasLen := false
@@ -943,6 +944,18 @@ func c08Registry(c *Ctx) {
 				}
 			}
 		})
+		if !hasLen || !hasReject {
+			// the tests may sit in a validation helper: the checker's arity summary (length dataflow through helpers'
+			// nil-error returns) then still excludes some argument counts, and some return hands on an error
+			if m, ok := arity[k]; ok && m != lenAll {
+				hasLen = true
+			}
+			allInstrs(f, func(in ssa.Instruction) {
+				if ret, ok := in.(*ssa.Return); ok && len(ret.Results) > 0 && retError(ret) != "nil" {
+					hasReject = true
+				}
+			})
+		}
 		r.Ob("CHECKER-ARITY", "checker of "+k, t.Pos(f.Pos()), hasLen && hasReject, "a builtin's checker must test len(funcExpr.Param) and be able to reject")
 	}
 	r.Floor("CHECKER-ARITY", 23)
